@@ -25,6 +25,11 @@ def make_obs(ctx):
                       group='add-y:ywd', bounds=dict(b, n='every n with result year in range')))
         obs.append(Ob('add-y:yd:%d-%d' % (lo, hi), H, 'h_add_y_yd', d, units=UNITS, unwind=2,
                       group='add-y:yd', bounds=dict(b, n='every n with result year in range')))
+        # business-day dates: month arithmetic and crop of the business-day index (harness of C07)
+        for (u, nmax) in (('DT_DURMO', 30), ('DT_DURYR', 40), ('DT_DURQU', 10)):
+            obs.append(Ob('add-%s:bizda:%d-%d' % (u[6:].lower(), lo, hi), 'C07_biz.c', 'h_bizda_add_m', dict(d, MUNIT=u, NMAX=nmax),
+                          units=UNITS, unwind=nmax // 12 + 6 if u == 'DT_DURMO' else 8, group='add-my:bizda',
+                          bounds=dict(b, n='|n| <= %d %s' % (nmax, u[6:].lower()), dates='every business-day date of the window')))
     return obs
 
 
@@ -34,5 +39,5 @@ def run(tier, seed):
         level_note=('bounded model checking: start day symbolic per year window, month count symbolic with '
                     '|n| <= 48 (loop bound checked by unwinding assertions), year count unbounded inside the range'),
         assumptions=['reference: year*12+month-1+n, day clamped to month length (h/ref.h)',
-                     'bizda month arithmetic handled in C07', '|n| > 48 months outside the claim'],
+                     '|n| > 48 months outside the claim'],
         stubs=[])
